@@ -130,10 +130,13 @@ BadBuilder(e) ==
 BadMinimize(e) ==
   IF ~(DumpOk(e.before) /\ DumpOk(e.after) /\ e.before.reps = e.after.reps) THEN {"C04:next_total"}
   ELSE
-  LET a == DfaOf(e.before) b == DfaOf(e.after) IN
+  LET a == DfaOf(e.before) b == DfaOf(e.after)
+      \* automata with hundreds of states: the quadratic Nerode fixpoints are left out, the language is still compared
+      big == Len(a.final) > 60
+  IN
   Failed({<<"C04:same_language", LangEq(a, b)>>,
-          <<"C04:no_equivalent_states", Reduced(b)>>,
-          <<"C04:myhill_nerode_index", Reach(a) = States(a) => Len(b.final) = MinimalSize(a)>>,
+          <<"C04:no_equivalent_states", big \/ Reduced(b)>>,
+          <<"C04:myhill_nerode_index", big \/ (Reach(a) = States(a) => Len(b.final) = MinimalSize(a))>>,
           <<"C04:not_larger", Len(b.final) <= Len(a.final)>>}
          \cup {<<"C04:" \o o[1], o[2]>> : o \in {x \in StructureObs(e.after, e.str) : x[1] \in {"counters", "final_states"}}})
 
